@@ -7,14 +7,6 @@ transactions of the group DECLARE, not by replaying the evaluator. Core Lean onl
 namespace AlgoVerif.Spec.Resources
 open AlgoVerif.Model.Resources
 
-inductive Resource where
-  | account (a : Addr)
-  | asset (id : Nat)
-  | app (id : Nat)
-  | holding (a : Addr) (id : Nat)
-  | locals (a : Addr) (id : Nat)
-deriving DecidableEq, Repr
-
 /-! ### what ONE transaction declares -/
 
 /-- accounts an app call with foreign arrays brings: sender, Accounts, the called app's account, ForeignApps' accounts -/
